@@ -45,7 +45,10 @@ pub fn message() -> BoxedStrategy<String> {
 
 pub const FILES: &[&str] = &["SourceFile", "Foo.java", "a(b)", "<unknown>", "", "Native Method", "ü.kt", "R8$$SyntheticClass"];
 
-pub const LINES: &[u64] = &[0, 1, 2, 5, 13, 42, 66, 4294967294, 4294967295, 4294967296, u64::MAX];
+pub const LINES: &[u64] = &[
+    0, 1, 2, 5, 13, 42, 66, 255, 256, 65535, 65536, 2147483647, 2147483648, 4294967294, 4294967295, 4294967296, 9007199254740991, 9007199254740992, 9007199254740993,
+    9223372036854775806, 9223372036854775807, 9223372036854775808, 9223372036854775809, u64::MAX - 1, u64::MAX,
+];
 
 /// identifier for trace elements: like the mapping identifier, but without whitespace / control characters
 /// (outside the printable-trace domain; keeping them would make most generated traces fall out of the domain)
